@@ -294,6 +294,8 @@ class ExprMixin:
         if op in ("in", "not in"):
             r = self._contains(b, a)
             if r is not None:
+                if not isinstance(a, Const):
+                    self.emit("decided", node, term=Term("in", (a, b), kind="bool", node=node), value=r)
                 return Const(r if op == "in" else not r)
             t = Term("in", (a, b), kind="bool", node=node)
             if self.kind_of(b) not in ("str", "list", "dict", "tuple", "set", "sequence") and \
